@@ -25,7 +25,7 @@ def enc(s):
 
 
 def dec(s):
-    return re.sub(r'%([0-9A-Fa-f]{2})', lambda m: chr(int(m.group(1), 16)), s)
+    return re.sub(r'(?:%[0-9A-Fa-f]{2})+', lambda m: bytes(int(h, 16) for h in m.group(0)[1:].split('%')).decode('utf-8', 'replace'), s)
 
 
 def ph_key(ph):
